@@ -225,6 +225,11 @@ def finding_models():
         one("finding_lt_lt", ap("lt", ap("lt", ci("a"), ci("b")), ci("c")), "C17-comparison-operand-of-comparison"),
         one("finding_external_sec", ap("sec", ci("a")), "C17-helper-for-externalised-equation", extra_vars=[var("k")],
             extra_eqs=[eqn(ci("k"), ap("plus", ci("y"), ci("c")))], externals=["main.y"]),
+        # a computed constant that depends on an NLA-solved computed constant, in a model with ODEs
+        one("finding_findroot_in_constants", ap("times", cn("3"), ci("k")), "C17-findroot-in-compute-computed-constants",
+            extra_vars=[var("k"), var("w"), var("t"), var("x", "1")],
+            extra_eqs=[eqn(ci("k"), ap("times", cn("2"), ci("w"))), eqn(ap("plus", ci("w"), ap("times", ci("a"), ci("w"))), cn("6")),
+                       eqn(ap("diff", "<bvar>%s</bvar>" % ci("t"), ci("x")), ci("a"))]),
     ]
 
 
@@ -341,6 +346,74 @@ def nla_elimination_models():
                 xml = _HDR % name + '  <component name="main">\n' + "".join(variables) + _MATH % "".join(eqs) + "  </component>\n</model>\n"
                 out.append({"name": name, "xml": xml, "externals": ["main." + m for m in mk],
                             "meta": {"family": "nla_elimination", "kind": kind, "order": "".join(perm), "marked": list(mk)}})
+    return out
+
+
+# --------------------------------------------------------------------------- the externals dimension
+def externals_base_models():
+    """one plain model per analyser type with two variables of every class that type can have"""
+    t = "<bvar>%s</bvar>" % ci("t")
+    out = []
+    for kind in ("ode", "dae", "algebraic", "nla"):
+        ode, nla = kind in ("ode", "dae"), kind in ("nla", "dae")
+        vs = [var("k1", "2"), var("k2", "3"), var("c1"), var("c2")]
+        es = [eqn(ci("c1"), ap("plus", ci("k1"), cn("1"))), eqn(ci("c2"), ap("times", ci("k2"), cn("2")))]
+        if ode:
+            vs += [var("t"), var("x1", "1"), var("x2", "2"), var("a1"), var("a2")]
+            es += [eqn(ap("diff", t, ci("x1")), ci("k1")), eqn(ap("diff", t, ci("x2")), ap("minus", ci("k2"), ci("x1"))),
+                   eqn(ci("a1"), ap("plus", ci("x1"), ci("k1"))), eqn(ci("a2"), ap("times", ci("x2"), ci("c1")))]
+        if nla:
+            vs += [var("z1"), var("z2"), var("u", "1"), var("v", "1")]
+            es += [eqn(ap("plus", ci("z1"), ap("times", ci("k1"), ci("z1"))), ci("c1")),
+                   eqn(ap("plus", ci("z2"), ap("times", ci("k2"), ci("z2"))), ci("k1")),
+                   eqn(ap("plus", ci("u"), ci("v")), cn("3")), eqn(ap("minus", ci("u"), ci("v")), cn("1"))]
+        name = "xbase_%s" % kind
+        out.append({"name": name, "xml": _HDR % name + '  <component name="main">\n' + "".join(vs) + _MATH % "".join(es) + "  </component>\n</model>\n",
+                    "externals": [], "meta": {"family": "externals", "kind": kind, "cls": "-", "qty": "none"}})
+    return out
+
+
+EXT_CLASSES = ["states", "constants", "computed_constants", "algebraic", "nla_unknowns"]
+
+
+def externals_matrix(base, info):
+    """from the accessor dump `info` of the UNMARKED model `base`: for every class of variable that the analyser found
+    (states, constants, computed constants, algebraic variables, unknowns of NLA systems) the variants "one member
+    external" and "all members external", plus "every state and variable external"."""
+    classes = {c: [] for c in EXT_CLASSES}
+    for r in info["states"]:
+        classes["states"].append(r)
+    by_index = {}
+    for r in info["variables"]:
+        by_index[r["index"]] = r
+        key = {"constant": "constants", "computed_constant": "computed_constants", "algebraic": "algebraic"}.get(r["type"])
+        if key:
+            classes[key].append(r)
+    state_by_index = {r["index"]: r for r in info["states"]}
+    seen = set()
+    for e in info["equations"]:
+        if e["type"] == "nla":
+            for typ, idx in e["vars"]:
+                r = state_by_index.get(idx) if typ == "state" else by_index.get(idx)
+                if r is not None and (typ, idx) not in seen:
+                    seen.add((typ, idx))
+                    classes["nla_unknowns"].append(r)
+    out = []
+
+    def variant(cls, qty, recs):
+        out.append({"name": "%s__%s__%s" % (base["name"], cls, qty), "xml": base["xml"],
+                    "externals": sorted({"%s.%s" % (r["component"], r["name"]) for r in recs}),
+                    "meta": {"family": "externals", "kind": info["type"], "cls": cls, "qty": qty, "base": base["name"]}})
+    for cls in EXT_CLASSES:
+        recs = classes[cls]
+        if not recs:
+            continue
+        variant(cls, "one", recs[:1])
+        if len(recs) >= 2:
+            variant(cls, "all", recs)
+        else:
+            out[-1]["meta"]["qty"] = "one=all"
+    variant("all_variables", "all", info["states"] + info["variables"])
     return out
 
 
